@@ -25,14 +25,15 @@ MANIFEST = {
             "exchange leaves unextended stays not done, fix C06-12; a destination in another group is refused, fix C06-11); init_work_data is proved to establish the invariant (initWorkData_wf), giving shuffle_correct_regs: for "
             "every register-only assignment, emitArgsAssignment ok => judge(run prog (setup ..)) = true; all hypotheses are discharged for integer "
             "arguments in GP registers on x86 (every emitter configuration) and AArch64, all register ids: shuffle_correct_int_regs, which has "
-            "no hypothesis on the code's choices and covers exchanged pairs with widening, chains, scratch-broken cycles and widening in place; every register-only initial context of the sweep is checked "
+            "no hypothesis on the code's choices and covers exchanged pairs with widening, chains, scratch-broken cycles and widening in place; "
+            "round 10: the same for every register group (shuffle_correct_typed_regs: float/double/vector incl. conversions, opmask, mm) and, from FuncDetail-style inputs with register AND stack arguments into registers, shuffle_correct_typed: init_work_data establishes the invariant for stack sources (initWorkData_wf2), phase 2 and phase 3 compose, loads proved for every covered kind, frames addressing the stack arguments through sp / fp; every register-only initial context of the sweep is checked "
             "at run time against an executable mirror of the invariant (wf0). phase 3 (stack sources loaded into registers) is proved at context level (shuffle_phase3_correct) on the generalised "
-            "invariant; NOT proved: its link to init_work_data, phase 1 (stack destinations) and the moving SA variable; "
+            "invariant; NOT proved: phase 1 (stack destinations), the moving SA variable (dynamic alignment without frame pointer / set_sa_reg_id), "
+            "and 'nothing else preserved is clobbered' beyond the variables' own registers; "
             "the former K3/K4/K5 witnesses are now theorems of correct / refused behaviour (shuffle_swap_ext_repaired, shuffle_cross_group_refused, "
             "shuffle_a64_ext_repaired). Every schedule the real code emits is additionally "
             "judged by the abstract machine of Spec/Machine.lean (monitor = testing).",
-    "note": "Model follows the code with fixes C06-1..10 (in /repo) and fixes/C06-11..16 (repairs of the former open findings K4, K3, K5, K1, K2, "
-            "K6; until they are applied to /repo the check reports exactly those six classes). Trusted: Lean kernel; Spec/ABI.lean and Spec/Machine.lean as the meaning of the ABIs / of "
+    "note": "Model follows the code with fixes C06-1..16 (all in /repo). Trusted: Lean kernel; Spec/ABI.lean and Spec/Machine.lean as the meaning of the ABIs / of "
             "the mov family; the FuncFrame facts (dirty/preserved masks, SA register/offsets) are inputs taken from the real frame (C07); the "
             "harness/driver diff. No open finding. Not claimed: mmx on 32-bit, 64-bit integers under GCC regparm, call-site marshalling inside the "
             "register allocator (C05), shuffle_correct for stack destinations / non-integer groups without the selection hypothesis, byte overlap of stack slots (movaps stores 16 bytes for a float).",
